@@ -32,8 +32,8 @@ ConnectMethods ==
   { C("connect", <<>>, ""), C("disconnect", <<>>, ""), C("command", <<>>, "SM,100,0,0"), C("query", <<>>, "QX"), C("bootload", <<>>, ""), C("reboot", <<>>, ""),
     C("query_statusbyte", <<>>, ""), C("var_write", <<7, 3>>, ""), C("motors_enable", <<0, 2>>, ""), C("write_nickname", <<>>, "Axi") }
 ReplugMethods == { C("connect", <<>>, ""), C("disconnect", <<>>, ""), C("command", <<>>, "SM,100,0,0"), C("query", <<>>, "QX") }
-AllDevices == {"ebb_ok", "ebb_late", "ebb_old", "ebb_late_old", "ebb_noversion", "ebb_in_text", "non_ebb", "silent", "unopenable", "absent", "raise_on_probe"}
-AllDevicesDeep == AllDevices \ {"ebb_late_old"}          \* the 4-call configuration (its kinds of lateness and of age are each covered by another device)
+AllDevices == {"ebb_ok", "ebb_late", "ebb_old", "ebb_late_old", "ebb_noversion", "ebb_in_text", "non_ebb", "other_versioned", "silent", "unopenable", "absent", "raise_on_probe"}
+AllDevicesDeep == AllDevices \ {"ebb_late_old", "other_versioned"}          \* the 4-call configuration (its kinds of lateness and of age are each covered by another device)
 OkDevices == {"ebb_ok"}
 \* the version gate at its edge: the minimum itself, one below, multi-digit components on either side
 VersionDevices == {"ebb_min", "ebb_below", "ebb_v3_0_10", "ebb_v10", "ebb_v2_10_9"}
